@@ -195,13 +195,16 @@ func (t DataType) goValue(endian binary.ByteOrder, bs []byte) (interface{}, erro
 		// User must set precision and scale
 		return dec, nil
 	case DATE, DATEN:
-		if len(bs) == 0 {
+		switch len(bs) {
+		case 0:
 			return nil, nil
+		case 4:
+			x := int32(endian.Uint32(bs))
+			days := asetime.ASEDuration(x) * asetime.Day
+			return asetime.Epoch1900().AddDate(0, 0, days.Days()), nil
+		default:
+			return nil, fmt.Errorf("invalid length for %v: %d", t, len(bs))
 		}
-
-		x := int32(endian.Uint32(bs))
-		days := asetime.ASEDuration(x) * asetime.Day
-		return asetime.Epoch1900().AddDate(0, 0, days.Days()), nil
 	case TIME, BIGTIMEN, TIMEN:
 		switch len(bs) {
 		case 0: // Null
@@ -246,8 +249,12 @@ func (t DataType) goValue(endian binary.ByteOrder, bs []byte) (interface{}, erro
 			return nil, fmt.Errorf("invalid length for %v: %d", t, len(bs))
 		}
 	case BIGDATETIMEN:
-		if len(bs) == 0 {
+		switch len(bs) {
+		case 0:
 			return nil, nil
+		case 8:
+		default:
+			return nil, fmt.Errorf("invalid length for %v: %d", t, len(bs))
 		}
 
 		dur := asetime.ASEDuration(endian.Uint64(bs))
